@@ -30,12 +30,69 @@ func protoName(p m3.Protocol) string {
 // buffer, the way the reporter reuses its protocol objects.
 type encoder struct {
 	buf   *thrift.TMemoryBuffer
+	lim   *limitedTransport
 	proto thrift.TProtocol
+}
+
+// limitedTransport is the memory buffer with a write budget: once budget
+// bytes have been accepted every further write fails, the way a UDP transport
+// refuses what does not fit (budget < 0: unlimited).
+type limitedTransport struct {
+	*thrift.TMemoryBuffer
+	budget int
+}
+
+var errBudget = fmt.Errorf("transport refuses further data")
+
+func (l *limitedTransport) take(n int) error {
+	if l.budget < 0 {
+		return nil
+	}
+	if n > l.budget {
+		l.budget = 0
+		return errBudget
+	}
+	l.budget -= n
+	return nil
+}
+
+func (l *limitedTransport) Write(p []byte) (int, error) {
+	if err := l.take(len(p)); err != nil {
+		return 0, err
+	}
+	return l.TMemoryBuffer.Write(p)
+}
+
+func (l *limitedTransport) WriteByte(b byte) error {
+	if err := l.take(1); err != nil {
+		return err
+	}
+	return l.TMemoryBuffer.WriteByte(b)
+}
+
+func (l *limitedTransport) WriteString(s string) (int, error) {
+	if err := l.take(len(s)); err != nil {
+		return 0, err
+	}
+	return l.TMemoryBuffer.WriteString(s)
 }
 
 func newEncoder(p m3.Protocol) *encoder {
 	buf := thrift.NewTMemoryBuffer()
-	return &encoder{buf: buf, proto: protoFactory(p).GetProtocol(buf)}
+	lim := &limitedTransport{TMemoryBuffer: buf, budget: -1}
+	return &encoder{buf: buf, lim: lim, proto: protoFactory(p).GetProtocol(lim)}
+}
+
+// abort writes b through the reused protocol object with a transport that
+// refuses data after `after` bytes (the write is abandoned where the error
+// surfaces, as the generated client does), then drops what was buffered.
+func (e *encoder) abort(b m3thrift.MetricBatch, after int) error {
+	e.buf.Reset()
+	e.lim.budget = after
+	err := b.Write(e.proto)
+	e.lim.budget = -1
+	e.buf.Reset()
+	return err
 }
 
 func (e *encoder) take() []byte {
